@@ -111,6 +111,23 @@ func c08Service(r *c08Rec) (*core.Service, map[string]string) {
 		r.values("shared", b, s2+s1)
 		return b, s2 + s1
 	}, "shared")
+	pub(func(a int, rest ...interface{}) int {
+		args := append([]interface{}{a}, rest...)
+		r.invoked("vany", args...)
+		r.values("vany", len(rest))
+		return len(rest)
+	}, "vany")
+	pub(func(n int, seed int) string {
+		r.invoked("bigstr", n, seed)
+		b := make([]byte, n)
+		x := uint32(seed)
+		for i := range b {
+			x = x*1664525 + 1013904223
+			b[i] = 'a' + byte(x>>24)%26
+		}
+		r.values("bigstr", string(b))
+		return string(b)
+	}, "bigstr")
 	s.AddInstanceMethods(&c08NS{r}, "ns")
 	table["ns_mul"] = "ns_mul"
 	return s, table
@@ -265,6 +282,18 @@ func c08Run(t *tr.Writer, id int, c c08Case) {
 	raw("shared", p, p, "pb", "pb")
 	raw("shared", p, &gen.Plain{A: 5, B: "pb", C: 2.5}, "x", "pb")
 	raw("user_profile_get", 7)
+	// nil in a variadic interface{} tail, first and in the middle
+	raw("vany", 1, nil, "x")
+	raw("vany", 2, "x", nil, nil)
+	raw("vany", 3)
+	raw("vany", 4, nil)
+	// results larger than a segment / a socket buffer
+	if c.Kind != "udp" {
+		raw("bigstr", 300000, 1)
+		raw("bigstr", 1<<20+7, 2)
+	} else {
+		raw("bigstr", 60000, 3)
+	}
 	// seeded compositions through echo
 	for i, n := 0, 0; n < 24 && i < 200; i++ {
 		g := gen.RandomOpt(c.Seed*7919+int64(i), 1+i%3, true)
